@@ -31,9 +31,17 @@ func (w *World) sameKey(a, b ssa.Value) bool {
 //
 //	v = *(&base.name)
 func (w *World) isFieldLoadOf(v ssa.Value, base ssa.Value, name string) bool {
+	if vv, isV := stripIface(v).(*virtVal); isV {
+		// a helper's value expressed in the caller's terms: the key says which load it is
+		return vv.k == "*@"+w.key(base)+"."+name && !strings.Contains(vv.k, "rec:")
+	}
 	v = stripIface(under(v))
 	u, ok := v.(*ssa.UnOp)
 	if !ok || u.Op != token.MUL {
+		// a value expressed in the caller's terms through a helper: its key is that of the load
+		if _, isV := v.(*virtVal); isV || w.isSynthetic(v) {
+			return w.key(v) == "*@"+w.key(base)+"."+name
+		}
 		return false
 	}
 	fa, ok := u.X.(*ssa.FieldAddr)
@@ -43,7 +51,12 @@ func (w *World) isFieldLoadOf(v ssa.Value, base ssa.Value, name string) bool {
 	if derefStruct(fa.X.Type()).Field(fa.Field).Name() != name {
 		return false
 	}
-	return w.sameKey(fa.X, base) || fa.X == base
+	if w.sameKey(fa.X, base) || fa.X == base {
+		return true
+	}
+	// expressed in the caller's terms through a helper (synthetic): which load it is is a
+	// matter of the key alone
+	return w.isSynthetic(v) && w.key(fa.X) == w.key(base) && !strings.Contains(w.key(base), "rec:")
 }
 
 // fieldLoad decomposes v = *(&X.f) and returns X and f.
